@@ -22,7 +22,21 @@ const zzC19Max = 6
 var (
 	zzC19Kid   [zzC19Max][2]byte
 	zzC19Total int
+	// a leaf may reference one of two raw entries (contract code / sub-trie roots added by the
+	// state sync's leaf callback): zzC19Raw[i] in {0 = none, 1, 2}; two leaves may share one
+	zzC19Raw  [zzC19Max]byte
+	zzC19Sync *Sync
 )
+
+func zzC19RawHash(r byte) common.Hash { return common.Hash{0x80 + r} }
+
+// the leaf callback of the state sync: the account leaf references code that must be fetched too
+func zzC19Leaf(leaf []byte, parent common.Hash) error {
+	if len(leaf) == 1 && leaf[0] != 0 {
+		zzC19Sync.AddRawEntry(zzC19RawHash(leaf[0]), 64, parent)
+	}
+	return nil
+}
 
 func zzC19Hash(i byte) common.Hash { return common.Hash{i} }
 
@@ -41,7 +55,7 @@ func zzC19Decode(hash, buf []byte, cachegen uint16) (node, error) {
 		}
 	}
 	if leaf {
-		n.Children[16] = valueNode([]byte{0xee})
+		n.Children[16] = valueNode([]byte{zzC19Raw[buf[0]]})
 	}
 	return n, nil
 }
@@ -73,8 +87,15 @@ func zzC19Reach() [zzC19Max]bool {
 	return r
 }
 
-func zzH_C19_sync() {
-	zzC19Total = zzverif.Bound("nodes", 3, 4)
+func zzH_C19_sync() { zzC19Run(false, zzverif.Bound("nodes", 3, 4)) }
+
+// the same with leaves that reference raw entries (code / storage roots) through the leaf callback
+//
+//verif:replace $M/trie.decodeNode zzC19Decode
+func zzH_C19_sync_raw() { zzC19Run(true, zzverif.Bound("nodesWithRawEntries", 3, 3)) }
+
+func zzC19Run(withRaw bool, total int) {
+	zzC19Total = total
 	for i := 1; i <= zzC19Total; i++ {
 		for k := 0; k < 2; k++ {
 			c := zzverif.U8("child")
@@ -82,15 +103,39 @@ func zzH_C19_sync() {
 			zzC19Kid[i][k] = c
 		}
 	}
+	for i := 1; i <= zzC19Total; i++ {
+		zzC19Raw[i] = 0
+		if withRaw {
+			r := zzverif.U8("leaf.raw")
+			zzverif.Assume(r <= 2)
+			if !zzverif.Thorough() {
+				zzverif.Assume(r <= 1) // quick tier: one raw entry, possibly shared by several leaves
+			}
+			zzC19Raw[i] = r
+		}
+	}
 	reach := zzC19Reach()
-	s := NewSync(zzC19Hash(1), zzC19DB{}, nil)
+	// raw entry r is part of the source iff a reachable leaf references it
+	var rawNeeded [3]bool
+	for i := 1; i <= zzC19Total; i++ {
+		isLeaf := zzC19Kid[i][0] == 0 && zzC19Kid[i][1] == 0
+		for r := byte(1); r <= 2; r++ {
+			rawNeeded[r] = zzverif.Any(rawNeeded[r], zzverif.All(reach[i], isLeaf, zzC19Raw[i] == r))
+		}
+	}
+	s := NewSync(zzC19Hash(1), zzC19DB{}, zzC19Leaf)
+	zzC19Sync = s
 	var asked, delivered []common.Hash
 	refusals := 0
-	for step := 0; step <= zzC19Total && s.Pending() > 0; step++ {
+	maxSteps := zzC19Total
+	if withRaw {
+		maxSteps += 2
+	}
+	for step := 0; step <= maxSteps && s.Pending() > 0; step++ {
 		asked = append(asked, s.Missing(0)...)
-		// the responder answers with any node id: one it was asked for (possibly again) or not
+		// the responder answers with any node id or raw entry: one it was asked for (possibly again) or not
 		id := zzverif.U8("response")
-		zzverif.Assume(id >= 1 && int(id) <= zzC19Total)
+		zzverif.Assume((id >= 1 && int(id) <= zzC19Total) || (withRaw && (id == 0x81 || (id == 0x82 && zzverif.Thorough()))))
 		h := zzC19Hash(id)
 		before := s.Pending()
 		req := s.requests[h]
@@ -115,19 +160,31 @@ func zzH_C19_sync() {
 		}
 		order := s.membatch.order
 		for pos, hh := range order {
+			if hh[0] >= 0x80 {
+				continue // a raw entry has no dependencies
+			}
 			for k := 0; k < 2; k++ {
 				c := zzC19Kid[hh[0]][k]
 				zzverif.Assert(c == 0 || zzC19In(order[:pos], zzC19Hash(c)), "a node is completed only after all of its children (a flushed prefix never holds a parent without its subtree)")
+			}
+			if zzC19Kid[hh[0]][0] == 0 && zzC19Kid[hh[0]][1] == 0 && zzC19Raw[hh[0]] != 0 {
+				zzverif.Assert(zzC19In(order[:pos], zzC19RawHash(zzC19Raw[hh[0]])), "a leaf is completed only after the raw entry it references (code, storage root), also when another leaf asked for it first")
 			}
 		}
 		var all []bool
 		for j := 1; j <= zzC19Total; j++ {
 			all = append(all, zzverif.Any(!reach[j], zzC19In(order, zzC19Hash(byte(j)))))
 		}
+		for r := byte(1); r <= 2; r++ {
+			all = append(all, zzverif.Any(!rawNeeded[r], zzC19In(order, zzC19RawHash(r))))
+		}
 		zzverif.Assert((s.Pending() == 0) == zzverif.All(all...), "sync reports completion exactly when every reachable node of the source is stored")
 		var got []bool
 		for j := 1; j <= zzC19Total; j++ {
 			got = append(got, zzverif.Any(!reach[j], zzC19In(delivered, zzC19Hash(byte(j)))))
+		}
+		for r := byte(1); r <= 2; r++ {
+			got = append(got, zzverif.Any(!rawNeeded[r], zzC19In(delivered, zzC19RawHash(r))))
 		}
 		zzverif.Assert(!zzverif.All(got...) || s.Pending() == 0, "once every node of the source has been delivered the sync is complete (no request is left waiting)")
 		for i, a := range order {
